@@ -1,6 +1,6 @@
 (* C07 - decoding consumes exactly one encoding and preserves what follows.  Statements only. *)
 From PV Require Import Base.Bytes Model.Proc Model.Types Model.TableTypes Model.Enc Model.Dec Gen.Tables
-     Proofs.ProcSim Proofs.DecStream Proofs.TagsetShape Proofs.RoundTrip1.
+     Proofs.ProcSim Proofs.DecStream Proofs.TagsetShape Proofs.RoundTrip1 Proofs.RoundTrip2.
 Local Open Scope nat_scope.
 
 (* Generic: a decoder that never looks at the end of its input returns the same value whatever
@@ -37,3 +37,12 @@ Theorem C07_tail_preserved_stage1 : forall ce cd T v b tl,
   exists v', decode cd (Some T) (b ++ tl) = Ok (DV T v', tl) /\ abs T v' = abs T v.
 Proof. exact roundtrip_stage1. Qed.
 Print Assumptions C07_tail_preserved_stage1.
+
+(* the same for the recursive stage-2 types (SEQUENCE OF / SET OF / SEQUENCE of mandatory components /
+   tagging, to any depth), BER *)
+Theorem C07_tail_preserved_stage2 : forall T v b tl,
+  stage2_ty T = true -> stage2_val T v = true ->
+  encode BER true 0 T v = Ok b -> (N.of_nat (length b) <= index_max)%N ->
+  exists v', decode BER (Some T) (b ++ tl) = Ok (DV T v', tl) /\ abs T v' = abs T v.
+Proof. exact roundtrip_stage2. Qed.
+Print Assumptions C07_tail_preserved_stage2.
